@@ -246,7 +246,14 @@ fn hdbg(_ctx: &Ctx, h: Hdr, what: &str) -> Value {
     let mut s = String::new();
     macro_rules! d {
         ($e:expr) => {
-            { write!(s, "{:?}", $e).unwrap(); write!(s, "{:#?}", $e).unwrap() }
+            {
+                write!(s, "{:?}", $e).unwrap();
+                write!(s, "{:#?}", $e).unwrap();
+                // ... and into sinks that refuse after a few bytes: Debug reports the error, it does not panic
+                for n in [0usize, 5, 40] {
+                    let _ = write!(crate::out::Limited(n), "{:?}", $e);
+                }
+            }
         };
     }
     match what {
